@@ -280,8 +280,21 @@ def grow_positions(rng, n, edges, bond=0.15, min_dist=0.03):
 # file text for species / systems (used by the system, pipeline, cli and alias engines)
 # --------------------------------------------------------------------------
 
-def itp_text(spec, comments=True):
-    """Plain .itp text for a molecule spec (atoms numbered 1..n, all bonds in [ bonds ])."""
+HEADER_STYLES = ["[ %s ]", "[%s]", "[\t%s\t]", "  [ %s ]", "\t[ %s ]  ", "[  %s  ]"]
+
+
+def itp_text(spec, comments=True, style=0):
+    """Plain .itp text for a molecule spec (atoms numbered 1..n, all bonds in [ bonds ]).
+    style: which legal spelling of the section headers is used (blanks / tabs inside and around the brackets)."""
+    text = _itp_text(spec, comments)
+    if style:
+        h = HEADER_STYLES[style % len(HEADER_STYLES)]
+        for name in ("moleculetype", "atoms", "bonds"):
+            text = text.replace("[ %s ]" % name, h % name)
+    return text
+
+
+def _itp_text(spec, comments=True):
     out = []
     if comments:
         out.append("; generated topology for %s" % spec["name"])
